@@ -101,6 +101,14 @@ FixGrid ==
   \cup UNION {{FunDef("f", FSig2(lp[1], lp[2]), <<Ret(Bin(op, A, B))>>, TFix(MaxW(lp[1][1], lp[2][1]), MaxW(lp[1][2], lp[2][2]))) : op \in {"Add", "Sub"}}
               \cup {FunDef("f", FSig2(lp[1], lp[2]), <<Ret(Cmp(op, A, B))>>, TBool) : op \in Cmps} : lp \in Layouts \X Layouts}
   \cup UNION {{FunDef("f", FSig1(l), <<Assign("u", A), Aug("u", "Add", k), Ret(IfE(Cmp("Gt", U, k2), U, A))>>, TFix(l[1], l[2])) : k \in Floats, k2 \in {CF(1, 2), CF(3, 2)}} : l \in Layouts}
+  \cup UNION {{FunDef("f", FSig1(l), <<Ret(Bin("Mult", CI(k), A))>>, TFix(l[1], l[2])) : k \in 0..3} \cup
+              {FunDef("f", FSig1(l), <<Ret(Bin("Mult", A, CI(k)))>>, TFix(l[1], l[2])) : k \in 0..3} : l \in Layouts}
+\* characters compared with integers and characters of every width class (ord(c) == 10: the literal is a Qint4)
+CharGrid ==
+  {FunDef("f", <<Arg("c", [t |-> "char", w |-> 8])>>, <<Ret(Cmp(op, Call1("ord", Name("c")), CI(k)))>>, TBool) : op \in {"Eq", "NotEq"}, k \in {0, 3, 10, 42, 97, 200}}
+  \cup {FunDef("f", <<Arg("c", [t |-> "char", w |-> 8])>>, <<Ret(Cmp(op, CI(k), Call1("ord", Name("c"))))>>, TBool) : op \in {"Eq", "NotEq"}, k \in {3, 10, 97}}
+  \cup {FunDef("f", <<Arg("c", [t |-> "char", w |-> 8]), Arg("d", TInt(w))>>, <<Ret(Cmp(op, Call1("ord", Name("c")), Name("d")))>>, TBool) : op \in {"Eq", "NotEq"}, w \in {2, 4}}
+  \cup {FunDef("f", <<Arg("c", [t |-> "char", w |-> 8]), Arg("d", TInt(w))>>, <<Ret(Cmp(op, Name("d"), Call1("ord", Name("c"))))>>, TBool) : op \in {"Eq", "NotEq"}, w \in {2, 4}}
 
 \* if statements whose TEST VARIABLE is written inside the statement (the branches are guarded by the value the test
 \* had at entry): bare-name tests, argument or local, re-assigned first / last / in the else branch; take-while loops
@@ -125,6 +133,7 @@ Pool == CASE Family = "loopif" -> LoopIf [] Family = "elif" -> Elif [] Family = 
           [] Family = "iftest" -> IfTest
           [] Family = "opgrid" -> OpGrid
           [] Family = "fixgrid" -> FixGrid
+          [] Family = "chargrid" -> CharGrid
 Init == p \in Pool
 Next == FALSE /\ p' = p
 Spec == Init /\ [][Next]_p
